@@ -89,3 +89,13 @@ Theorem C12_collating_single_character :
     end.
 Proof. exact collating_single. Qed.
 Print Assumptions C12_collating_single_character.
+
+(** "A malformed pattern gives an error (never a wrong match)": [:^name:], which package regexp
+    reads as the complement of a class, is no class name; a bracket expression that holds one is
+    rejected whatever the name. *)
+Theorem C12_negated_class_name_rejected :
+  forall g f name rest,
+    forallb (fun c => negb (c =? 58)%N) name = true -> (0 < f)%nat ->
+    citems f g (91 :: 91 :: 58 :: 94 :: name ++ 58 :: 93 :: 93 :: rest)%N = CErr.
+Proof. exact negated_class_rejected. Qed.
+Print Assumptions C12_negated_class_name_rejected.
